@@ -126,6 +126,8 @@ def run(c):
                                "stale": "the file on disk is an older, shorter version of the analysed source (cut inside the probe sites)"}[r["file"]]
             if r.get("alias"):
                 inp["GODEBUG"] = "gotypesalias=" + r["alias"]
+            if r.get("debug"):
+                inp["RunContext.Debug"] = r["debug"]
             if r["shape"].startswith("product"):
                 inp["target"] = "harness/cmd/c07/catalogue.go (prodHeader + prodSites)"
                 inp["report"], inp["suggest"] = "$x|$y|$$ ($y only when the pattern binds it)", "$x (`$y; $x` for some two-variable rules)"
